@@ -76,6 +76,7 @@ strengthened = {
     "C16-i": "subclasses define a public method with a Callable[[int], None] parameter (a hook that returns nothing)",
     "C17-i": "the texts 'None' and 'True' as values of text parameters",
     "C18-i": "C18: a request and cancel-all pipelined in one segment (the spawner is cancelled before its first step), followed at some point by flush / gather-and-close without -r",
+    "C06-e": "(caught on arrival, lost when later generator changes diluted the accidental trigger, found again by the 3-seed matrix) workers may wait for another pool to be closed (`await aux.until_closed()`), several at a time; the quick tier now runs the complete table of single sweep placements instead of a 2500-case stride",
     "C08-e": "C08: pool_size assignments in the C08 generator (while tasks are inside callbacks)",
     "C13-e": "C13: new 'server' family - a session's pending flush plus the program's own flush while the control server is stopped; pool generator: flush calls whose caller gives up (cancelled flush) are modelled",
     "C14-e": "C14: exact oracle for stop()/stop_all() also when tasks cancelled before their first step are around (was lenient there)",
